@@ -530,6 +530,11 @@ def non_overlap_rule(chk, repo, clause):
                         found = True
                     else:
                         other = True
+        # a vectorised exclusion (no loop): some store into the collected stack / a view of it between collection and return
+        if not found:
+            for e in p.events:
+                if e.kind == 'write' and e.data.get('how') == 'setitem' and not e.in_loop and e.depth == 0:
+                    other = True
         excl = found if excl is None else (excl and found)
     if closed is False:
         verdict, det = True, 'the non-antialiased hexagon is open on its edges: neighbours cannot share a sample'
